@@ -3,16 +3,16 @@ import AwsVerif.Proofs.C20.Own
 namespace AwsVerif.Threads
 
 def aPlus : Instr → Nat
-  | .freeW _ => 1
-  | .create _ _ _ => 1
-  | .act (.launch _ _ _) => 1
+  | .freeW _ nm => 1 + nm.toNat
+  | .create _ _ _ nm => 1 + nm.toNat
+  | .act (.launch _ _ _ nm) => 1 + nm.toNat
   | .joinAndFree l => l.length
   | _ => 0
 
 def aMinus : Instr → Nat
-  | .allocW _ => 1
+  | .allocW _ nm => 1 + nm.toNat
   | .joinM _ => 1
-  | .act (.launch _ _ _) => 1
+  | .act (.launch _ _ _ nm) => 1 + nm.toNat
   | .joinAndFree l => l.length
   | _ => 0
 
@@ -53,7 +53,9 @@ def holds (P : Prog) (k : Nat) (st : Status) : Nat :=
   if k = 0 then 0   -- the process main thread has no wrapper
   else if P.managed k then (if isLive st then 1 else 0) else (if st = .created ∨ st = .running then 1 else 0)
 
-def wwPlus (P : Prog) (k : Nat) (th : Th) : Nat := wsum aPlus th.code + holds P k th.status
+/-- a created thread that has not started yet still has its name string attached to the wrapper -/
+def nameHeld (th : Th) : Nat := th.named.toNat
+def wwPlus (P : Prog) (k : Nat) (th : Th) : Nat := wsum aPlus th.code + holds P k th.status + nameHeld th
 def wwMinus (th : Th) : Nat := wsum aMinus th.code
 
 def WEq (P : Prog) (s : State) : Prop :=
@@ -99,10 +101,11 @@ theorem exec_aSuf (P : Prog) (s s' : State) (t : Nat) (i : Instr) (rest : List I
        simp [aSuf, wsum, aPlus, aMinus, *] at * <;> (try omega) <;> (try (refine ⟨?_, ?_⟩ <;> omega))))
 
 /-- a pending free means a wrapper block is live -/
-theorem wLive_pos (P : Prog) (s : State) (t : Nat) (k : Nat) (rest : List Instr) (ht : t < P.n)
-    (hc : (s.th t).code = Instr.freeW k :: rest) (hsuf : ∀ j, aSuf (s.th j).code) (hE : WEq P s) : 1 ≤ s.wLive := by
-  have h1 : sumTo P.n (fun j => wwMinus (s.th j)) + 1 ≤ sumTo P.n (fun j => wwPlus P j (s.th j)) := by
-    refine sumTo_lt P.n t _ _ ht (fun j _ => ?_) ?_
+theorem wLive_pos (P : Prog) (s : State) (t : Nat) (k : Nat) (nm : Bool) (rest : List Instr) (ht : t < P.n)
+    (hc : (s.th t).code = Instr.freeW k nm :: rest) (hsuf : ∀ j, aSuf (s.th j).code) (hE : WEq P s) :
+    1 + nm.toNat ≤ s.wLive := by
+  have h1 : sumTo P.n (fun j => wwMinus (s.th j)) + (1 + nm.toNat) ≤ sumTo P.n (fun j => wwPlus P j (s.th j)) := by
+    refine sumTo_ltn P.n t (1 + nm.toNat) _ _ ht (fun j _ => ?_) ?_
     · have := aSuf_le _ (hsuf j); simp only [wwMinus, wwPlus]; omega
     · have h2 := hsuf t
       rw [hc] at h2
@@ -125,6 +128,8 @@ theorem exec_wEq (P : Prog) (s s' : State) (t : Nat) (i : Instr) (rest : List In
     (hbig : ∀ k, P.n ≤ k → (s.th k).status = .notCreated)
     (hnc : ∀ k, (s.th k).status = .notCreated → (s.th k).code = [])
     (hm : Memb P s) (hsufAll : ∀ k, aSuf (s.th k).code) (hm0 : P.managed 0 = false)
+    (hcopy : ∀ k, Instr.joinM k ∈ (s.th t).code → (s.th k).copyId = some k)
+    (hnm : ∀ k, (s.th k).named = true → (s.th k).status = .created)
     (h : exec P s t i rest = some s') (hE : WEq P s) : WEq P s' := by
   have mjt := hm.mj t; have hut := hm.hu t; have pjt := hm.pj t
   rw [hc] at mjt hut pjt
@@ -136,18 +141,18 @@ theorem exec_wEq (P : Prog) (s s' : State) (t : Nat) (i : Instr) (rest : List In
   cases i
   case' act a => cases a
   case' joinAndFree l => cases l
-  case freeW k =>
-    have hpos := wLive_pos P s t k rest ht hc hsufAll hE
+  case freeW k nm =>
+    have hpos := wLive_pos P s t k nm rest ht hc hsufAll hE
     exec_split h
     refine wEq_upd1 P s _ t _ hE ht rfl ?_
-    simp only [wwPlus, wwMinus, hc, wsum, aPlus, aMinus, cont_wLive, freeWrapper_wLive]
+    simp only [wwPlus, wwMinus, nameHeld, hc, wsum, aPlus, aMinus, cont_wLive, freeWrapper_wLive]
     omega
   case pjaSwapPush =>
     have hmt := pjt (by simp)
     exec_split h
     all_goals (
       refine wEq_upd1 P s _ t _ hE ht rfl ?_
-      simp [wwPlus, wwMinus, hc, wsum, aPlus, aMinus, holds, hmt, *]
+      simp [wwPlus, wwMinus, nameHeld, hc, wsum, aPlus, aMinus, holds, hmt, *]
       try omega)
   case signal =>
     exec_split h
@@ -156,23 +161,23 @@ theorem exec_wEq (P : Prog) (s s' : State) (t : Nat) (i : Instr) (rest : List In
       by_cases hjt : j = t
       · subst hjt
         refine wEq_upd1 P s _ j { s.th j with woken := true, code := rest } hE ht (by simp [upd_idem]) ?_
-        simp [wwPlus, wwMinus, hc, wsum, aPlus, aMinus]
+        simp [wwPlus, wwMinus, nameHeld, hc, wsum, aPlus, aMinus]
       · refine wEq_upd2 P s _ t j _ _ hE ht hjn hjt rfl ?_
-        simp [wwPlus, wwMinus, hc, wsum, aPlus, aMinus, Ne.symm hjt]
+        simp [wwPlus, wwMinus, nameHeld, hc, wsum, aPlus, aMinus, Ne.symm hjt]
     · refine wEq_upd1 P s _ t _ hE ht rfl ?_
-      simp [wwPlus, wwMinus, hc, wsum, aPlus, aMinus]
-  case create k pin nf =>
+      simp [wwPlus, wwMinus, nameHeld, hc, wsum, aPlus, aMinus]
+  case create k pin nf nm =>
     simp only [exec] at h
     split at h
     · simp only [Option.some.injEq] at h; subst h
       refine wEq_upd1 P s _ t _ hE ht rfl ?_
-      simp only [wwPlus, wwMinus, hc, wsum, aPlus, aMinus, wsum_append, cont_wLive, pushW_wLive]
+      simp only [wwPlus, wwMinus, nameHeld, hc, wsum, aPlus, aMinus, wsum_append, cont_wLive, pushW_wLive]
       by_cases hmk : P.managed k = true <;> by_cases hp : pin = true <;>
         simp [hmk, hp, wsum, aPlus, aMinus] <;> omega
     · split at h
       · simp only [Option.some.injEq] at h; subst h
         refine wEq_upd1 P s _ t _ hE ht rfl ?_
-        simp only [wwPlus, wwMinus, hc, wsum, aPlus, aMinus, wsum_append, cont_wLive]
+        simp only [wwPlus, wwMinus, nameHeld, hc, wsum, aPlus, aMinus, wsum_append, cont_wLive]
         by_cases hmk : P.managed k = true <;> by_cases hp : pin = true <;>
           simp [hmk, hp, wsum, aPlus, aMinus] <;> omega
       · rename_i hg
@@ -181,10 +186,14 @@ theorem exec_wEq (P : Prog) (s s' : State) (t : Nat) (i : Instr) (rest : List In
         simp only [Option.some.injEq] at h; subst h
         refine wEq_upd2 P s _ t k _ _ hE ht hkn (Ne.symm htk) rfl ?_
         have hk0 := hnc k hs0
-        simp [wwPlus, wwMinus, hc, hk0, hs0, wsum, aPlus, aMinus, holds_created P k hkz]
+        have hk1 : (s.th k).named = false := by
+          cases hh : (s.th k).named
+          · rfl
+          · have := hnm k hh; rw [hs0] at this; cases this
+        simp [wwPlus, wwMinus, nameHeld, hc, hk0, hk1, hs0, wsum, aPlus, aMinus, holds_created P k hkz]
         omega
   case joinM k =>
-    simp only [exec] at h
+    simp only [exec, hcopy k (by rw [hc]; simp), if_true] at h
     split at h
     · rename_i hg
       obtain ⟨hs0, htk⟩ := hg
@@ -193,7 +202,7 @@ theorem exec_wEq (P : Prog) (s s' : State) (t : Nat) (i : Instr) (rest : List In
       have hkz : k ≠ 0 := by intro e; subst e; simp [hm0] at hmk
       simp only [Option.some.injEq] at h; subst h
       refine wEq_upd2 P s _ t k _ _ hE ht hkn (Ne.symm htk) rfl ?_
-      simp [wwPlus, wwMinus, hc, hs0, hmk, wsum, aPlus, aMinus, htk, holds_exited P k hkz]
+      simp [wwPlus, wwMinus, nameHeld, hc, hs0, hmk, wsum, aPlus, aMinus, htk, holds_exited P k hkz]
       omega
     · simp at h
   case joinU k =>
@@ -205,12 +214,12 @@ theorem exec_wEq (P : Prog) (s s' : State) (t : Nat) (i : Instr) (rest : List In
       have hmk := hut k (by simp)
       simp only [Option.some.injEq] at h; subst h
       refine wEq_upd2 P s _ t k _ _ hE ht hkn (Ne.symm htk) rfl ?_
-      simp [wwPlus, wwMinus, hc, hs0, hmk, wsum, aPlus, aMinus, htk, holds]
+      simp [wwPlus, wwMinus, nameHeld, hc, hs0, hmk, wsum, aPlus, aMinus, htk, holds]
     · simp at h
   all_goals exec_split h
   all_goals (first
     | (refine wEq_upd1 P s _ t _ hE ht rfl ?_
-       simp only [wwPlus, wwMinus, hc, wsum, aPlus, aMinus, expand, wsum_append, cont_wLive,
+       simp only [wwPlus, wwMinus, nameHeld, hc, wsum, aPlus, aMinus, expand, wsum_append, cont_wLive,
          pushW_wLive, pushLog_wLive, List.length_cons]
        all_goals ((repeat' split) <;> (try simp_all [wsum, aPlus, aMinus]) <;> omega))
     | skip)
